@@ -202,6 +202,41 @@ func genC01(g *Rng, tier string, emit func(Op)) {
 						emit(verifyDOp(kp.id, t2, ctx, nonce, false, "shift-disclosed", label))
 					}
 				}
+				// in-memory proofs (no wire format): responses shifted by -k*ord are negative but still
+				// satisfy the verification equation; they lie outside the allowed range
+				for _, j := range sortedKeys(proof.AResponses) {
+					k := new(big.Int).Div(proof.AResponses[j], order)
+					k.Add(k, bi(1))
+					nv := new(big.Int).Sub(proof.AResponses[j], new(big.Int).Mul(k, order))
+					t2 := cloneTree(tree)
+					t2.(T)["a_responses"].(T)[strconv.Itoa(j)] = I(nv)
+					emit(verifyDOp(kp.id, t2, ctx, nonce, false, "negative-response", "reject").with("direct", true))
+				}
+				{
+					k := new(big.Int).Div(proof.EResponse, order)
+					k.Add(k, bi(1))
+					t2 := cloneTree(tree)
+					t2.(T)["e_response"] = I(new(big.Int).Sub(proof.EResponse, new(big.Int).Mul(k, order)))
+					emit(verifyDOp(kp.id, t2, ctx, nonce, false, "negative-e-response", "reject").with("direct", true))
+				}
+				// toy keys (small group order): the smallest representative above the allowed range
+				if toy {
+					for _, j := range sortedKeys(proof.AResponses) {
+						lim := new(big.Int).Lsh(bi(1), pk.Params.LmCommit+1)
+						k := new(big.Int).Sub(lim, proof.AResponses[j])
+						k.Div(k, order).Add(k, bi(1))
+						nv := new(big.Int).Add(proof.AResponses[j], new(big.Int).Mul(k, order))
+						t2 := cloneTree(tree)
+						t2.(T)["a_responses"].(T)[strconv.Itoa(j)] = I(nv)
+						emit(verifyDOp(kp.id, t2, ctx, nonce, false, "shift-just-above-range", "reject"))
+					}
+					lim := new(big.Int).Lsh(bi(1), pk.Params.LeCommit+1)
+					k := new(big.Int).Sub(lim, proof.EResponse)
+					k.Div(k, order).Add(k, bi(1))
+					t2 := cloneTree(tree)
+					t2.(T)["e_response"] = I(new(big.Int).Add(proof.EResponse, new(big.Int).Mul(k, order)))
+					emit(verifyDOp(kp.id, t2, ctx, nonce, false, "shift-e-just-above-range", "reject"))
+				}
 				// boundary of the response range: the largest accepted and the first rejected value
 				// cannot be reached without breaking the equation, so they must be rejected anyway
 				maxA := new(big.Int).Lsh(bi(1), pk.Params.LmCommit+1)
